@@ -810,4 +810,136 @@ theorem f32RoundInt_bound (v : Int) (h : inI32 v) :
   · have := f32RoundNat_bound (-v) (by omega) (by omega); omega
   · have := f32RoundNat_bound v (by omega) (by omega); omega
 
+/-! ### whole-outline success condition and start points -/
+
+theorem zipPts_map_flags : ∀ (a : List (Int × Int)) (b : List Nat), a.length = b.length →
+    (zipPts a b).map (·.flags) = b := by
+  intro a
+  induction a with
+  | nil => intro b h; cases b <;> simp_all [zipPts]
+  | cons xy ps ih =>
+    intro b h
+    obtain ⟨x, y⟩ := xy
+    cases b with
+    | nil => simp at h
+    | cons f fs => simp only [zipPts, List.map_cons]; rw [ih fs (by simpa using h)]
+
+/-- flag-level description of when `to_path` succeeds -/
+def toPathOkGo (style : Style) (npts : Nat) (flags : List Nat) : List Nat → Nat → Bool
+  | [], _ => true
+  | e :: rest, start =>
+    if e < start ∨ e ≥ npts then false
+    else if e ≥ flags.length then false
+    else
+      let fl := (flags.drop start).take (e - start + 1)
+      match fl.getLast? with
+      | none => toPathOkGo style npts flags rest (e + 1)
+      | some lf => contourOk style fl lf && toPathOkGo style npts flags rest (e + 1)
+
+theorem toPathGo_ok_iff (C : Coord) (style : Style) (pts : List (Int × Int)) (flags : List Nat) :
+    ∀ (contours : List Nat) (ix start : Nat),
+      (toPathGo C style pts flags contours ix start).2 = none ↔
+        toPathOkGo style pts.length flags contours start = true := by
+  intro contours
+  induction contours with
+  | nil => intro ix start; simp [toPathGo, toPathOkGo]
+  | cons e rest ih =>
+    intro ix start
+    unfold toPathGo toPathOkGo
+    by_cases h1 : e < start ∨ e ≥ pts.length
+    · simp [h1]
+    · by_cases h2 : e ≥ flags.length
+      · simp [h1, h2]
+      · simp only [h1, h2, if_false]
+        have hlen : (List.take (e - start + 1) (List.drop start pts)).length =
+            (List.take (e - start + 1) (List.drop start flags)).length := by
+          simp only [List.length_take, List.length_drop]; omega
+        have hmap := zipPts_map_flags _ _ hlen
+        have hlast : (zipPts (List.take (e - start + 1) (List.drop start pts))
+              (List.take (e - start + 1) (List.drop start flags))).getLast?.map (·.flags) =
+            (List.take (e - start + 1) (List.drop start flags)).getLast? := by
+          rw [← List.getLast?_map, hmap]
+        cases hl : (zipPts (List.take (e - start + 1) (List.drop start pts))
+              (List.take (e - start + 1) (List.drop start flags))).getLast? with
+        | none =>
+          rw [hl] at hlast; simp only [Option.map_none] at hlast
+          rw [← hlast]; simp only []
+          exact ih _ _
+        | some last =>
+          rw [hl] at hlast; simp only [Option.map_some] at hlast
+          rw [← hlast]; simp only []
+          have hc := contourToPath_ok_iff C style
+            (zipPts (List.take (e - start + 1) (List.drop start pts))
+              (List.take (e - start + 1) (List.drop start flags))) last
+          rw [hmap] at hc
+          cases hcp : contourToPath C style
+              (zipPts (List.take (e - start + 1) (List.drop start pts))
+                (List.take (e - start + 1) (List.drop start flags))) last with
+          | mk cs r =>
+            rw [hcp] at hc
+            cases r with
+            | some err =>
+              simp only [] at hc ⊢
+              have : contourOk style (List.take (e - start + 1) (List.drop start flags)) last.flags = false := by
+                cases hco : contourOk style (List.take (e - start + 1) (List.drop start flags)) last.flags with
+                | false => rfl
+                | true => have := hc.mpr hco; simp at this
+              simp [this]
+            | none =>
+              simp only [] at hc ⊢
+              have : contourOk style (List.take (e - start + 1) (List.drop start flags)) last.flags = true := hc.mp trivial
+              rw [this, Bool.true_and]
+              exact ih _ _
+
+/-- the point a contour's `MoveTo` goes to -/
+def startPoint (C : Coord) (style : Style) (pts : List Pt) (last : Pt) : Option Pt :=
+  match pts with
+  | [] => none
+  | first :: tail =>
+    if isCubic first.flags then none
+    else if isQuad first.flags then
+      match style with
+      | .freeType => if isOn last.flags then some last else some (last.midpoint C first)
+      | .harfBuzz =>
+        match tail with
+        | [] => none
+        | next :: _ => if isOn next.flags then some next else some (first.midpoint C next)
+    else some first
+
+theorem runContour_head (C : Coord) (start : Pt) (body : List (Nat × Pt)) :
+    (runContour C start body).1.head? = some (Cmd.move (C.out start.x) (C.out start.y)) := by
+  unfold runContour
+  cases emitMany C .empty body with
+  | mk cs r => cases r <;> simp
+
+theorem contourToPath_head (C : Coord) (style : Style) (pts : List Pt) (last : Pt) :
+    (contourToPath C style pts last).1.head? =
+      (startPoint C style pts last).map (fun p => Cmd.move (C.out p.x) (C.out p.y)) := by
+  unfold contourToPath startPoint
+  cases pts with
+  | nil => rfl
+  | cons first tail =>
+    simp only []
+    by_cases hc : isCubic first.flags = true
+    · simp [hc]
+    · simp only [hc, if_false, Bool.false_eq_true]
+      by_cases hq : isQuad first.flags = true
+      · simp only [hq, if_true]
+        cases style with
+        | freeType =>
+          simp only []
+          by_cases ho : isOn last.flags = true
+          · simp only [ho, if_true]; rw [runContour_head]; rfl
+          · simp only [ho, if_false, Bool.false_eq_true]; rw [runContour_head]; rfl
+        | harfBuzz =>
+          simp only []
+          cases tail with
+          | nil => rfl
+          | cons next rest =>
+            simp only []
+            by_cases ho : isOn next.flags = true
+            · simp only [ho, if_true]; rw [runContour_head]; rfl
+            · simp only [ho, if_false, Bool.false_eq_true]; rw [runContour_head]; rfl
+      · simp only [hq, if_false, Bool.false_eq_true]; rw [runContour_head]; rfl
+
 end FontVerif.ToPath
